@@ -130,7 +130,9 @@ def plan(tier, seed):
     if tier == 'quick':
         n_env, n_ctor, parts, secs = 30000, 12000, 6, 40
     else:
-        n_env, n_ctor, parts, secs = 7_000_000, 2_000_000, 14, 560
+        # 16 shards in all (7 env, 2 ctor, 3 reuse, 2 conc, 2 sig): one wave of
+        # the driver's 16 workers, so the wall time is one time budget
+        n_env, n_ctor, parts, secs = 7_000_000, 2_000_000, 7, 560
     shards = []
     for p, (f, n) in enumerate(split(n_env, parts)):
         shards.append({'name': f'env{p}', 'mode': 'nrt', 'kind': 'env',
@@ -142,7 +144,7 @@ def plan(tier, seed):
                        'hard_timeout': secs + 120})
     # one Env object through a history of uses and parameter changes
     # (vf/c19_reuse.py)
-    n_reuse, rparts = (6000, 2) if tier == 'quick' else (1_500_000, 4)
+    n_reuse, rparts = (6000, 2) if tier == 'quick' else (1_500_000, 3)
     for p, (f, n) in enumerate(split(n_reuse, rparts)):
         shards.append({'name': f'reuse{p}', 'mode': 'nrt', 'kind': 'reuse',
                        'first_case': f, 'n': n, 'secs': secs,
@@ -150,7 +152,7 @@ def plan(tier, seed):
     # one multichannel Env shared by threads that use it for the first time
     # at once (vf/c19_conc.py)
     n_conc, cparts, csecs = (6000, 2, 12) if tier == 'quick' else \
-        (600_000, 3, 300)
+        (600_000, 2, 300)
     for p, (f, n) in enumerate(split(n_conc, cparts)):
         shards.append({'name': f'conc{p}', 'mode': 'nrt', 'kind': 'conc',
                        'first_case': f, 'n': n, 'secs': csecs,
@@ -158,7 +160,7 @@ def plan(tier, seed):
                        'hard_timeout': csecs + 120})
     # envelope fields given as unit generator outputs inside a graph function
     # (vf/c19_ugen.py)
-    n_sig, sparts = (12000, 4) if tier == 'quick' else (900_000, 4)
+    n_sig, sparts = (12000, 4) if tier == 'quick' else (900_000, 2)
     for p, (f, n) in enumerate(split(n_sig, sparts)):
         shards.append({'name': f'sig{p}', 'mode': 'nrt', 'kind': 'sig',
                        'first_case': f, 'n': n, 'secs': secs,
